@@ -267,6 +267,12 @@ def run(ctx):
         nidx = sum(int(c.split()[3]) if c[2] == 'r' else 1 for c in icases)
         ctx.evaluations += nidx - len(icases)
         ctx.tie_obligations.append({'name': 'generated Gallina == real C++ on %d case lines (%d indexes/values)' % (len(icases), nidx), 'ok': not mism})
+        hm, _ = ctx.correspond('capacity-model', hcases, par + [harness], par + [ctx.model_exe], timeout=3000)
+        ctx.tie_obligations.append({'name': 'L1 capacity model (SegModel.step over the generated functions) == real momo::SegmentedArray '
+                                            'on %d histories (count / segment count / capacity / newest segment id after every op)' % len(hcases), 'ok': not hm})
+        for (i, c, a, b) in hm[:2]:
+            ctx.violation('L1 capacity model and the real container disagree', {'case': c, 'impl': a[-300:], 'model': b[-300:],
+                          'cmd': 'echo "%s" | build/C16/harness' % c}, found_input=True)
         for (i, c, a, b) in mism[:3]:
             if c[2] == 'r':   # narrow a range line down to the first differing index
                 ra, rb = a.split(';'), b.split(';')
